@@ -50,7 +50,11 @@ def level_source(j, n, f):
         body += " ${next.body()}"
     body += ")"
     out.append(body)
-    return "\n".join(out)
+    text = "\n".join(out)
+    if f.get("names") == "namespace-attributes":
+        # the def and the block are called like attributes of the Namespace class
+        text = text.replace('name="d()"', 'name="uri()"').replace(".d()", ".uri()").replace('name="b"', 'name="filename"')
+    return text
 
 
 def reference(n, flags):
@@ -107,6 +111,9 @@ def h_chain(n, full):
                 inh = INH[p.choose(3 if (full or n <= 3) else 2, "inherit%d" % j)]
             flags.append(dict(inherit=inh, attr=ATTR[p.choose(3 if full else 2, "attr%d" % j)], **{"def": bool(p.choose(2, "def%d" % j)),
                                                                                                    "block": bool(p.choose(2, "block%d" % j))}))
+        if n <= 2 and p.choose(2, "names_like_namespace_attributes"):
+            for fl in flags:
+                fl["names"] = "namespace-attributes"
         lk = LK.TemplateLookup()
         for j in range(n):
             lk.put_string("t%d" % j, level_source(j, n, flags[j]))
@@ -353,6 +360,9 @@ sys.exit(1 if bad else 0)
 
 
 def classify(c):
+    i = c.get("input") or {}
+    if any(isinstance(fl, dict) and fl.get("names") == "namespace-attributes" for fl in (i.get("flags") or [])):
+        return "C06-member-named-like-namespace-attribute"
     return None
 
 
@@ -360,7 +370,7 @@ def run(check, tier):
     setup()
     check.encode(*kernel())
     check.assume(
-        "chains of n templates built through a real TemplateLookup; per level the flags 'defines def d', 'declares named block b', module attribute "
+        "chains of n templates built through a real TemplateLookup (for n <= 2 the def and the block may also be called like attributes of the Namespace class: uri, filename); per level the flags 'defines def d', 'declares named block b', module attribute "
         "a (absent / a value / None) and the kind of <%inherit> (static / expression / expression evaluating to None) are solver-chosen; "
         "each template's body prints self.d, local.d, parent.d, next.d and self.attr.a (missing members print MISSING), the block at a "
         "marked position, and chains with next.body(); the expected text is computed from the statement's rules",
